@@ -612,7 +612,8 @@ EXPECT = ["C12.inverse_tail_integral_inverts_the_tail_integral", "C12.fast_eq_ge
 
 
 def main(tier):
-    bounds = {"dimensions": "2 and 3", "rectangles": "every combination of per-coordinate interval kinds (negative side, positive side, straddling zero; "
+    bounds = {"histories_and_variants": 'positive-side intervals starting exactly at 0 in the non-negativity / F-volume obligations (an upper end at 0 on the negative side is not an F-volume: outside)',
+              "dimensions": "2 and 3", "rectangles": "every combination of per-coordinate interval kinds (negative side, positive side, straddling zero; "
               "finite or infinite end points as listed per harness), end points arbitrary reals",
               "outside": "'= integral of the joint density' (needs calculus on an arbitrary F); inverse_tail_integral (TOMS748 root search in C); "
                          "rectangles with an end point exactly at 0"}
